@@ -13,7 +13,7 @@ func genC01(seed uint64, tier string) Plan {
 	p := Plan{Prop: "C01", Seed: seed, Cfg: g.cfgStd(), Seg: pick(g, []int{0, 0, 2, 2, 1})}
 	p.Conns = g.conns(p.Cfg, 3)
 	nkeys := 1 + g.n(len(keyAlphabet))
-	keys := keyAlphabet[:nkeys]
+	keys := g.keys(nkeys)
 	nsteps := 4 + g.n(22)
 	if tier == "thorough" {
 		nsteps = 4 + g.n(40)
